@@ -36,6 +36,9 @@ def oracle(cfg, trace, residue):
                 del conn[k]
         if op['op'] not in ('frame', 'frameval'):
             continue
+        if not cfg['asyncHandlers'] and im.get('deferred'):
+            fails.append((None, 'async_handlers is disabled but the handling of a client message was deferred to a background '
+                                'task: one client\'s events are no longer handled in arrival order (%r)' % (op,)))
         t = op['t']
         fr = pend.get(t, []) + [op['text'] if op['op'] == 'frame' else op['v']]
         try:
@@ -66,6 +69,14 @@ def oracle(cfg, trace, residue):
             continue
         if len(evs) > 1:
             fails.append((None, 'more than one handler invocation for one event: %r' % (evs,)))
+        if isinstance(p['data'], list) and p['data'] and isinstance(p['data'][0], str) and \
+                p['data'][0] not in ('connect', 'disconnect', '*'):
+            tgt = S.event_target(cfg, p['ns'], p['data'][0])
+            if tgt in ('fn', 'cls') and not evs and not im['raised']:
+                fails.append((None, 'with async_handlers disabled the event was not handled before the next message '
+                                    'can be read (arrival order is no longer guaranteed): %r' % (op,)))
+            if tgt is None and evs:
+                fails.append((None, 'an event nobody is responsible for invoked %r' % (evs,)))
         for slot, args in evs:
             # sid followed by the event's arguments (possibly prefixed by event name / namespace)
             tail = list(p['data'][1:])
